@@ -45,6 +45,12 @@ class ServedEvent(object):
                 break
             n += 1
         if not self._e.is_set():
+            if timeout is not None:
+                # the wait times out on the virtual clock
+                w = kit.World.cur
+                if w is not None:
+                    w.clock += max(timeout, 0)
+                return False
             from sx.core import PathEnd
             raise PathEnd()
         return True
